@@ -243,16 +243,20 @@ class Reread(object):
                     self.violation(replay)
             # (c) file-level expectation of the generator
             if expect_triple is not None and tuple(expect_triple) != tuple(exp):
-                replay.update(kind='parsed objects do not reflect the edit of the file (or the table is wrong)',
+                # the tables hold on the unchanged tree, so this is the reader misreading the file:
+                # the answer to this very pair of files is not the difference between them
+                replay.update(kind='reread does not report the difference between the two files: the reader does not '
+                                   'take from the file what the edit says',
                               expected_from_file=[list(x) for x in expect_triple], from_objects=[list(x) for x in exp],
-                              differences=info)
-                self.violation(replay, nofail=True)
+                              answer=list(got), differences=info)
+                self.violation(replay)
             if target is not None:
                 is_changed = target in exp[1]
                 if (expect_target == 'changed') != is_changed:
-                    replay.update(kind='an edited option does not show in the parsed objects (or shows when it should not)',
-                                  target=target, expected=expect_target, differences=info.get(target))
-                    self.violation(replay, nofail=True)
+                    replay.update(kind='reread does not report exactly the difference: an edited option is not taken from the '
+                                       'file by the reader (or an unedited one differs)',
+                                  target=target, expected=expect_target, answer=list(got), differences=info.get(target))
+                    self.violation(replay)
                 if 'zz' in got[0] + got[1] + got[2]:
                     replay.update(kind='an untouched group was reported', answer=list(got))
                     self.violation(replay)
@@ -342,6 +346,8 @@ class Reread(object):
 def _show(t):
     if t is None:
         return '<file deleted>'
+    import c15_gen
+    t = c15_gen.subst(t) if not getattr(t, 'extra', None) else t
     if getattr(t, 'extra', None):
         return str(t) + ''.join('\n; ---- include file %s ----\n%s' % (k, v) for k, v in sorted(t.extra.items()))
     if isinstance(t, bytes):
@@ -352,8 +358,27 @@ def _show(t):
     return t
 
 
+def free_ports(n):
+    """n TCP ports nobody listens on right now (fcgi groups bind their socket when they are made)"""
+    import socket
+    socks = []
+    try:
+        for _ in range(n):
+            s = socket.socket(socket.AF_INET, socket.SOCK_STREAM)
+            s.bind(('127.0.0.1', 0))
+            socks.append(s)
+        return [s.getsockname()[1] for s in socks]
+    finally:
+        for s in socks:
+            s.close()
+
+
 def run_reread(chk, wd):
     import c15_gen
+    # every path and port the generated files name lives in this run's work directory / is free now
+    tmp = os.path.join(wd, 't')
+    os.makedirs(tmp)
+    c15_gen.configure(tmp, free_ports(3))
     rr = Reread(chk, wd)
     quick = chk.tier == 'quick'
     rng = chk.rng
@@ -418,6 +443,36 @@ def run_reread(chk, wd):
         rr.sequence([old_v, (F(main, {'conf.d/one.conf': i1, 'conf.d/bad.conf': '[program:q]\nnumprocs=zz\n'}), '!bad include file'),
                      new_v], 'seq:broken-include:' + label, expect_triple=exp3)
         chk.dist('structural:include')
+    # include files in several directories, each using %(here)s: a file's own directory
+    main2 = rr.base + '[include]\nfiles = conf.d/*/*.conf conf.d/top.conf\n\n' + c15_gen.render([c15_gen.P('m')])
+    ha = c15_gen.render([('program:a', [('command', '%(here)s/run-a'), ('directory', '%(here)s')])])
+    hb = c15_gen.render([('program:b', [('command', '%(here)s/run-b')])])
+    hc = c15_gen.render([('eventlistener:c', [('command', '%(here)s/run-c'), ('events', 'TICK_5'),
+                                              ('environment', 'H="%(here)s"')])])
+    ht = c15_gen.render([('program:t', [('command', '%(here)s/run-t')])])
+    w0 = F(main2, {'conf.d/a/one.conf': ha, 'conf.d/top.conf': ht})
+    for label, old_v, new_v, exp3 in [
+        ('here-later-dir-added', w0, F(main2, {'conf.d/a/one.conf': ha, 'conf.d/b/two.conf': hb, 'conf.d/top.conf': ht}), (['b'], [], [])),
+        ('here-earlier-dir-added', F(main2, {'conf.d/b/two.conf': hb, 'conf.d/top.conf': ht}),
+         F(main2, {'conf.d/a/one.conf': ha, 'conf.d/b/two.conf': hb, 'conf.d/top.conf': ht}), (['a'], [], [])),
+        ('here-later-dir-removed', F(main2, {'conf.d/a/one.conf': ha, 'conf.d/z/three.conf': hc, 'conf.d/top.conf': ht}), w0, ([], [], ['c'])),
+        ('here-file-moved-to-other-dir', w0, F(main2, {'conf.d/q/one.conf': ha, 'conf.d/top.conf': ht}), ([], ['a'], [])),
+        ('here-second-file-same-dir', w0, F(main2, {'conf.d/a/one.conf': ha, 'conf.d/a/two.conf': hb, 'conf.d/top.conf': ht}), (['b'], [], [])),
+        ('here-three-dirs', F(main2, {'conf.d/a/one.conf': ha, 'conf.d/b/two.conf': hb, 'conf.d/top.conf': ht}),
+         F(main2, {'conf.d/a/one.conf': ha, 'conf.d/b/two.conf': hb, 'conf.d/z/three.conf': hc, 'conf.d/top.conf': ht}), (['c'], [], [])),
+    ]:
+        rr.sequence([old_v, new_v], 'struct:' + label, expect_triple=exp3)
+        rr.sequence([old_v, new_v, old_v, new_v], 'seq:' + label, expect_triple=exp3)
+        chk.dist('structural:include')
+    # and what %(here)s meant, checked on the daemon's own candidate list
+    rr.world.boot(F(main2, {'conf.d/a/one.conf': ha, 'conf.d/b/two.conf': hb, 'conf.d/z/three.conf': hc, 'conf.d/top.conf': ht}))
+    want = {'a': 'conf.d/a/run-a', 'b': 'conf.d/b/run-b', 'c': 'conf.d/z/run-c', 't': 'conf.d/run-t'}
+    for g in rr.world.options.process_group_configs:
+        if g.name in want and g.process_configs[0].command != os.path.join(wd, want[g.name]):
+            rr.violation({'kind': '%(here)s in an included file is not the directory of that file', 'group': g.name,
+                          'command': g.process_configs[0].command, 'expected': os.path.join(wd, want[g.name]),
+                          'old_file': _show(F(main2, {'conf.d/a/one.conf': ha, 'conf.d/b/two.conf': hb,
+                                                      'conf.d/z/three.conf': hc, 'conf.d/top.conf': ht}))})
     # sequences: edit -> reread -> edit -> reread, no update in between
     seqs = c15_gen.reread_sequences(chk.tier)
     for label, steps in seqs:
@@ -504,7 +559,8 @@ def run_reread(chk, wd):
 def _rebase(text, wd):
     """corpus files were recorded under another scratch directory"""
     import re
-    return re.sub(r'/verif/_work/[^/\n]+', wd, text)
+    import c15_gen
+    return c15_gen.subst(re.sub(r'/verif/_work/[^/\n]+', wd, text))
 
 
 def finish_reread(chk, rr, results):
